@@ -134,15 +134,15 @@ Definition delete_hard_link (s : st) (id : N) : st :=
       if (c <=? 0)%Z then kv_del s id else kv_put s id (set_link b (h_hl b) c)
   end.
 
-(* handleUpdateToHardLinks (setHardLink, then drop the previous link of this name if it differs) *)
+(* handleUpdateToHardLinks, as repaired (the early return for an entry without link id is gone):
+   setHardLink if the entry carries an id; then drop the previous link of this name if it differs —
+   also when the new entry carries none *)
 Definition handle_update_to_hard_links (s : st) (p : path) (e : hentry) : st :=
-  if h_hl e =? 0 then s
-  else
-    let s1 := kv_put s (h_hl e) e in
-    match nfind s1 p with
-    | Some ex => if negb (h_hl ex =? 0) && negb (h_hl ex =? h_hl e) then delete_hard_link s1 (h_hl ex) else s1
-    | None => s1
-    end.
+  let s1 := if h_hl e =? 0 then s else kv_put s (h_hl e) e in
+  match nfind s1 p with
+  | Some ex => if negb (h_hl ex =? 0) && negb (h_hl ex =? h_hl e) then delete_hard_link s1 (h_hl ex) else s1
+  | None => s1
+  end.
 
 (* ---------- filerstore_wrapper.go ---------- *)
 (* InsertEntry = UpdateEntry (leveldb2: UpdateEntry calls InsertEntry) *)
@@ -270,9 +270,9 @@ Definition delete_entry (ev : env) (s : st) (p : path) (rec ign data : bool) : r
         let (dir_chunks, hl_ids) := collect_children cs in
         let s1 := if h_dir e then w_delete_folder_children s p else s in
         let s2 := w_delete_one s1 p e in
-        if data
-        then (fold_left delete_hard_link hl_ids s2, OK, expand_delete ev (h_chunks e ++ dir_chunks))
-        else (s2, OK, [])
+        (* maybeDeleteHardLinks, as repaired: whether or not the data is deleted *)
+        (fold_left delete_hard_link hl_ids s2, OK,
+         if data then expand_delete ev (h_chunks e ++ dir_chunks) else [])
   end.
 
 (* FilerServer.DeleteEntry: filer_pb.ErrNotFound is not reported *)
@@ -615,35 +615,11 @@ Definition trig_rename_linked (s : st) (o : op) : bool :=
   | _ => false
   end.
 
-(* k = 1: an entry without link id is written over a name whose blob carries one (plain upload or
-   UpdateEntry, a rename onto the name): handleUpdateToHardLinks returns at once, the counter is not decremented *)
-Definition trig_overwrite_linked (s : st) (o : op) : bool :=
-  match o with
-  | Create p e _ | Update p e => (h_hl e =? 0) && blob_linked s p
-  | Rename oldp newp =>
-      negb (path_eqb oldp newp) &&
-      (blob_linked s newp ||
-       existsb (fun c => blob_linked s (child newp (fst c))) (list_children s oldp))
-  | _ => false
-  end.
-
-(* k = 2: a directory deleted recursively WITHOUT data deletion has a child carrying a link id:
-   DeleteFolderChildren removes the names, maybeDeleteHardLinks is skipped *)
-Definition trig_rec_nodata (ev : env) (s : st) (o : op) : bool :=
-  match o with
-  | Delete p _ _ false =>
-      match find_entry ev s p with
-      | Some e => h_dir e && existsb (fun c => negb (h_dir (snd c)) && negb (h_hl (snd c) =? 0)) (list_children s p)
-      | None => false
-      end
-  | _ => false
-  end.
-
+(* (two former findings are repaired in the tree: an entry without link id written over a linked name
+   now decrements the counter in handleUpdateToHardLinks, and a recursive delete decrements the
+   counters of the removed names whether or not the data is deleted) *)
 Definition c21_classify (ev : env) (s : st) (o : op) : option N :=
-  if trig_rename_linked s o then Some 0
-  else if trig_overwrite_linked s o then Some 1
-  else if trig_rec_nodata ev s o then Some 2
-  else None.
+  if trig_rename_linked s o then Some 0 else None.
 
 (* the first step of the model's run at which the C21 property fails, classified *)
 Fixpoint c21_first_failure (ev : env) (s : st) (ops : list op) : option (option N) :=
@@ -699,7 +675,7 @@ Definition c21_op_ok (ev : env) (s : st) (o : op) : bool :=
    entry is a file (what a rename does to a directory tree is the subject of C18) *)
 Definition c21_quiet (ev : env) (s : st) (o : op) : bool :=
   c21_op_ok ev s o &&
-  negb (trig_rename_linked s o) && negb (trig_overwrite_linked s o) && negb (trig_rec_nodata ev s o) &&
+  negb (trig_rename_linked s o) &&
   match o with
   | Rename oldp _ => match nfind s oldp with Some e => negb (h_dir e) | None => true end
   | _ => true
